@@ -747,6 +747,64 @@ def _small(raw) -> bool:
     return all(_small(c) for c in raw[1:])
 
 
+# ----------------------------------------------------------------------------- flattener local-variable reuse family
+REUSE_K = (1, 2, 3, 4, 6)
+REUSE_C = (0, 1)
+REUSE_M = (2, 3, 4, 6)
+REUSE_MULT = (1, -1, 2, 3, 6)
+
+
+def reuse_terms(mults):
+    """((k*d0 + c) op m) [* mu]: op in mod / floordiv / ceildiv; gcd(k, m) > 1 occurs; raw trees in generator order."""
+    out = []
+    for op in ("mod", "fdiv", "cdiv"):
+        for k in REUSE_K:
+            for c in REUSE_C:
+                for m in REUSE_M:
+                    n = ("d", 0) if k == 1 else ("mul", ("d", 0), ("i", k))
+                    if c:
+                        n = ("add", n, ("i", c))
+                    t = (op, n, ("i", m))
+                    for mu in mults:
+                        out.append(t if mu == 1 else ("mul", t, ("i", mu)))
+    return out
+
+
+def _shard_reuse(task):
+    """All sums and differences  left[lo:hi] (+|-) right[*]  of two div/mod terms over d0: build oracle on the pair and
+    simplify() under every (nd, ns) setting against the reference (the second term re-uses the flattener's locals)."""
+    lo, hi, seed = task
+    cfg = _G["cfg"]
+    index = _G["index"]
+    st = Stats()
+    seen: set = set()
+    hs, nts = array("q"), array("q")
+    n = 0
+    for a in _G["reuse_left"][lo:hi]:
+        for b in _G["reuse_right"]:
+            for k in ("add", "sub"):
+                r = do_transition(st, k, a, b, a)
+                if r is None or r[0] == "bad":
+                    continue
+                e, ref = r
+                if e in index or e in seen:
+                    st.bump("duplicate_states_merged")
+                    continue
+                seen.add(e)
+                h = hash(str(e))
+                hs.append(h)
+                if any(v != ref[0] for v in ref):
+                    nts.append(h)
+                st.max_depth = max(st.max_depth, 1 + max(a.depth, b.depth))
+                if _simplify_bad(st, e, ref, cfg["sizes"]) is not None:
+                    check_simplify(st, _raw3(k, a, b), e, ref, cfg["sizes"])
+                st.outcomes["reuse-family:simplified"] += 1
+                n += 1
+                if (n + 131 * seed + 7 * lo) % 4999 == 0:
+                    st.sample({"tree": pretty(_raw3(k, a, b)), "built": str(e), "family": "flattener-local-reuse"})
+    return st, hs, nts
+
+
 # ----------------------------------------------------------------------------- composition checks
 def k_set():
     """Small fixed set of replacement expressions (raw trees of the same language, every operator present)."""
@@ -1062,9 +1120,9 @@ def _dbg(msg: str) -> None:
 def tier_cfg(quick: bool):
     if quick:
         return {"sizes": SIMPLIFY_SIZES, "l3_prims": "small2", "l3_unary": "dm9", "l3_unary_3var": "none", "l3_leaves": False,
-                "l3_divmod_partners": False, "l4_unary": "none"}
+                "l3_divmod_partners": False, "l4_unary": "none", "reuse_left_mults": REUSE_MULT, "reuse_right_mults": (1,)}
     return {"sizes": SIMPLIFY_SIZES, "l3_prims": "all", "l3_unary": "all", "l3_unary_3var": "all", "l3_leaves": True,
-            "l3_divmod_partners": True, "l4_unary": "dm8"}
+            "l3_divmod_partners": True, "l4_unary": "dm8", "reuse_left_mults": REUSE_MULT, "reuse_right_mults": REUSE_MULT}
 
 
 def generate(ctx, cfg) -> dict:
@@ -1132,6 +1190,19 @@ def generate(ctx, cfg) -> dict:
         for key, arr in (("h3", h3), ("nt3", nt3), ("h4", h4), ("nt4", nt4)):
             if len(arr):
                 hashes[key].append(arr)
+    # flattener local-variable reuse family (sums / differences of two div/mod terms over d0)
+    st = Stats()
+    for side, mults in (("reuse_left", cfg["reuse_left_mults"]), ("reuse_right", cfg["reuse_right_mults"])):
+        terms = [_rebuild(st, t) for t in reuse_terms(mults)]      # oracle 1 on every term (innermost failure reported)
+        _G[side] = [t for t in terms if t is not None]
+    ctx.merge(st)
+    nl = len(_G["reuse_left"])
+    hashes["hr"], hashes["ntr"] = [], []
+    for _, (wst, hr, ntr) in pmap(_shard_reuse, [(lo, min(nl, lo + 4), ctx.seed) for lo in range(0, nl, 4)]):
+        ctx.merge(wst)
+        hashes["hr"].append(hr)
+        hashes["ntr"].append(ntr)
+    _dbg("reuse family done")
     return hashes
 
 
@@ -1143,8 +1214,10 @@ def run(ctx):
     levels = _G["levels"]
     n_reg = sum(len(l) for l in levels)
     n34 = _count_distinct(hashes["h3"] + hashes["h4"])
-    ctx.stats.states = n_reg + n34
-    ctx.stats.nontrivial += _count_distinct(hashes["nt3"] + hashes["nt4"])
+    n34r = _count_distinct(hashes["h3"] + hashes["h4"] + hashes["hr"])
+    ctx.stats.states = n_reg + n34r
+    ctx.stats.nontrivial += _count_distinct(hashes["nt3"] + hashes["nt4"] + hashes["ntr"])
+    ctx.stats.bump("reuse_family_states", n34r - n34)
     for d, l in enumerate(levels):
         ctx.stats.bump(f"level{d}_states", len(l))
     ctx.stats.bump("level3_states", _count_distinct(hashes["h3"]))
@@ -1205,6 +1278,11 @@ def run(ctx):
         "depth4": {"int_operand_forms": [f"{k}:{v}:{side}" for k, v, side in UNARY_SETS[cfg["l4_unary"]]],
                    "on": "depth-3 states reached by " + ",".join(f"{k}:{v}" for k, v, _ in UNARY_DIVMOD)
                          + " from depth-2 states with constants in {-1,2,3} that mention <= 2 variables"},
+        "flattener_reuse_family": {
+            "term": "((k*d0 + c) op m) [* mu], op in mod/floordiv/ceil_div, k in %s, c in %s, m in %s" % (list(REUSE_K), list(REUSE_C), list(REUSE_M)),
+            "left_multipliers": list(cfg["reuse_left_mults"]), "right_multipliers": list(cfg["reuse_right_mults"]),
+            "pairs": "every ordered pair left (+|-) right: %d" % (2 * len(_G["reuse_left"]) * len(_G["reuse_right"])),
+            "checks": "build oracle on every term and pair, simplify under every size"},
         "simplify_sizes": [list(x) for x in cfg["sizes"]],
         "compose_subjects": len(subj), "replacement_set": [pretty(t) for t in K],
         "map_compose_pairs": len(msub) * len(others), "inverse_permutation_maps": len(inv),
